@@ -167,6 +167,7 @@ func runC07(seed int64, n int) {
 	cases := opCasesWhere(seed, n, allFamilies, func(p *hx.Profile) { p.MinSteps, p.MaxSteps = 6, 30 },
 		func(st *hx.Step) bool { return isWrite(st) && !(st.Block && !st.StopOnErr) }, covered, changesDatabase)
 	coverageCounters("target_", covered)
+	cases = append(cases, bigCases()...)
 	for _, c := range cases {
 		if changesDatabase(c) {
 			count("effectful_" + c.Kind)
@@ -194,7 +195,10 @@ func runC07(seed int64, n int) {
 		d0, _ := x.DumpRaw()
 		// fail step k = 1, 2, ... until the operation runs through without the fault firing
 		var silent []string // fault runs that reported success and changed nothing
-		for k := int64(1); k < 200; k++ {
+		for k := int64(1); k < 400; k++ {
+			if k > 40 && strings.HasPrefix(c.Kind, "big-") && k%7 != 0 {
+				continue // far into a large call: every seventh position
+			}
 			hx.Plan.Arm(k, 0, false)
 			gotErr, res := runStepRaw(x, st)
 			steps := hx.Plan.Disarm()
@@ -278,6 +282,44 @@ func runC07(seed int64, n int) {
 	}
 	if len(sum.Failures) == 0 {
 		c07ReadOnly(seed)
+	}
+}
+
+// bigCases: single calls that write hundreds of elements (one call = one atomic change however
+// the implementation chooses to send it to the storage): the fault positions reach far into them.
+func bigCases() []opCase {
+	const N = 300
+	var vals []hx.Value
+	var fields []string
+	var kvs, keyvals []hx.KV
+	var zvs []hx.ZV
+	var keys []string
+	for i := 0; i < N; i++ {
+		name := fmt.Sprintf("m%03d", i)
+		vals = append(vals, hx.VStr(name))
+		fields = append(fields, name)
+		kvs = append(kvs, hx.KV{K: name, V: hx.VStr("v")})
+		keyvals = append(keyvals, hx.KV{K: "bigk" + name, V: hx.VStr("v")})
+		zvs = append(zvs, hx.ZV{V: hx.VStr(name), Score: float64(i)})
+		keys = append(keys, "bigk"+name)
+	}
+	one := func(op *hx.Op) *hx.Step { return &hx.Step{Ops: []*hx.Op{op}} }
+	mk := func(id int, kind string, target *hx.Op, prefix ...*hx.Op) opCase {
+		var pre []*hx.Step
+		for _, p := range prefix {
+			pre = append(pre, one(p))
+		}
+		return opCase{Hist: &hx.History{ID: 900000 + id}, Prefix: pre, Target: one(target), Kind: kind}
+	}
+	return []opCase{
+		mk(1, "big-EAdd", hx.EAdd("bigE", vals...)),
+		mk(2, "big-HSetMany", hx.HSetMany("bigH", kvs...)),
+		mk(3, "big-ZAddMany", hx.ZAddMany("bigZ", zvs...)),
+		mk(4, "big-SSetMany", hx.SSetMany(keyvals...)),
+		mk(5, "big-KDelete", hx.KDelete(keys...), hx.SSetMany(keyvals...)),
+		mk(6, "big-EDelete", hx.EDelete("bigE", vals...), hx.EAdd("bigE", vals...)),
+		mk(7, "big-HDelete", hx.HDelete("bigH", fields...), hx.HSetMany("bigH", kvs...)),
+		mk(8, "big-ZDelete", hx.ZDelete("bigZ", vals...), hx.ZAddMany("bigZ", zvs...)),
 	}
 }
 
@@ -460,10 +502,24 @@ func c07ReadOnly(seed int64) {
 		}
 		c07ReadOnlyPath(seed+int64(i), fmt.Sprintf(form, file), file)
 	}
+	// connected with OpenDB on two caller-opened handles, the second one read-only (mode=ro)
+	if len(sum.Failures) == 0 {
+		file := filepath.Join(dir, "ro-opendb.db")
+		if x0, err := hx.OpenPath(file); err == nil {
+			x0.Close()
+			c07ReadOnlyPath(seed+77, "opendb2:"+file, file)
+		}
+	}
 }
 
 func c07ReadOnlyPath(seed int64, path, file string) {
-	x, err := hx.OpenPath(path)
+	var x *hx.Exec
+	var err error
+	if strings.HasPrefix(path, "opendb2:") {
+		x, err = hx.OpenPathTwoHandles(file)
+	} else {
+		x, err = hx.OpenPath(path)
+	}
 	if err != nil {
 		fail("harness", "open "+path+": "+err.Error(), nil)
 		return
@@ -502,6 +558,9 @@ func c07ReadOnlyPath(seed int64, path, file string) {
 		fail("c07-readonly-wrote", fmt.Sprintf("database opened as %q: operations inside read-only (View) transactions changed the database\n before: %s\n after : %s", path, d0, d1), nil)
 	}
 	x.Close()
+	if strings.HasPrefix(path, "opendb2:") {
+		path = file
+	}
 	// (2) a read-only handle on the same file
 	ro, err := redka.OpenRead(path, nil)
 	if err != nil {
